@@ -352,7 +352,7 @@ func main() {
 			continue
 		}
 		texts[s.vid] = t
-		emit(J{"k": "render", "vid": s.vid, "n": 0, "text": ints([]byte(t)), "s": []int{}, "lit": []int{}, "path": "", "kind": "", "tok": []int{}, "acc": []int{}})
+		emit(J{"k": "render", "keep": true, "vid": s.vid, "n": 0, "text": ints([]byte(t)), "s": []int{}, "lit": []int{}, "path": "", "kind": "", "tok": []int{}, "acc": []int{}})
 		v, err := parse(t)
 		if err != nil {
 			// not even parseable as a struct: report through a field record that cannot match
@@ -378,10 +378,10 @@ func main() {
 			for _, s := range probe {
 				buf.Reset()
 				if err := enc.Encode(s.typeID, s.s); err != nil {
-					emit(J{"k": "render", "vid": s.vid, "n": done, "text": ints([]byte("error: " + err.Error())), "s": []int{}, "lit": []int{}, "path": "", "kind": "", "tok": []int{}, "acc": []int{}})
+					emit(J{"k": "render", "keep": true, "vid": s.vid, "n": done, "text": ints([]byte("error: " + err.Error())), "s": []int{}, "lit": []int{}, "path": "", "kind": "", "tok": []int{}, "acc": []int{}})
 					continue
 				}
-				emit(J{"k": "render", "vid": s.vid, "n": done, "text": ints(buf.Bytes()), "s": []int{}, "lit": []int{}, "path": "", "kind": "", "tok": []int{}, "acc": []int{}})
+				emit(J{"k": "render", "keep": true, "vid": s.vid, "n": done, "text": ints(buf.Bytes()), "s": []int{}, "lit": []int{}, "path": "", "kind": "", "tok": []int{}, "acc": []int{}})
 			}
 		}
 		buf.Reset()
@@ -392,7 +392,7 @@ func main() {
 		if err := enc.Encode(s.typeID, s.s); err != nil && !failed {
 			// the first Encode that fails on the long-lived encoder: its value rendered fine on a fresh one
 			failed = true
-			emit(J{"k": "render", "vid": s.vid, "n": done, "text": ints([]byte("error: " + err.Error())), "s": []int{}, "lit": []int{}, "path": "", "kind": "", "tok": []int{}, "acc": []int{}})
+			emit(J{"k": "render", "keep": true, "vid": s.vid, "n": done, "text": ints([]byte("error: " + err.Error())), "s": []int{}, "lit": []int{}, "path": "", "kind": "", "tok": []int{}, "acc": []int{}})
 		}
 		done++
 	}
